@@ -37,13 +37,16 @@ PIN = {
 
 
 def run(index, rep, db=None):
-    db = db or build_all(index)
+    rep.guard(inputs_only, index, rep)
+    rep.guard(read, index, rep)
+    db = db or rep.guard(build_all, index)
+    if db is None:
+        return None
     rep.note_analysed("optimizer_templates", len(db.templates))
     rep.guard(obj, index, db, rep)
     rep.guard(consumption_sum, db, rep)
     rep.guard(caps, db, rep)
     rep.guard(animal, db, rep)
-    rep.guard(read, index, rep)
     return db
 
 
@@ -243,6 +246,29 @@ def read(index, rep):
         rep.check(ok, rule, f"{m}:fourth-return-slot", "fourth element of the returned tuple is not the first-solve optimum",
                   loc=loc(OPT, f))
     rep.require_min(rule, 5)
+
+
+def inputs_only(index, rep):
+    """the programme handed to the solver is a function of this Optimizer's own inputs: optimizer.py keeps no module-level or
+    class-level container that its methods write (such a container carries values from one optimisation into the next, so a
+    later round or simulation would solve a problem built from another one's constants)"""
+    from .c14 import shared_container_writes
+    rule = "C02.INPUTS"
+    n = 0
+    for name, kind, st, bad in shared_container_writes(index, OPT):
+        n += 1
+        rep.check(not bad, rule, f"shared-container:{name}",
+                  f"the {kind}-level container {name} is written while the programme is built (at {bad[:4]}): constants of an earlier "
+                  "optimisation leak into later ones", loc=loc(OPT, st))
+    mod = index.module(OPT)
+    decs = [(fn, d) for fn in ast.walk(mod) if isinstance(fn, ast.FunctionDef) for d in fn.decorator_list
+            if "cache" in norm_src(d).lower() or "memo" in norm_src(d).lower()]
+    rep.check(not decs, rule, "no-memoised-builder",
+              "a programme-building method is memoised (" + ", ".join(f.name for f, _ in decs[:3]) + "): its result would be reused for "
+              "different inputs of the same key", loc=loc(OPT, decs[0][0]) if decs else OPT)
+    glb = [g for g in ast.walk(mod) if isinstance(g, (ast.Global, ast.Nonlocal))]
+    rep.check(not [g for g in glb if isinstance(g, ast.Global)], rule, "no-global-state", "optimizer.py declares `global` state", loc=OPT)
+    rep.note_analysed("optimizer_shared_containers", n)
 
 
 def describe(rep):
